@@ -398,6 +398,39 @@ func registerReflectSet(p *Program) {
 		om.Set(m, kv, m.assignTo(elem, mt.Elem(), "SetMapIndex"))
 		return nil
 	})
+	reg("(reflect.Value).Convert", func(m *Machine, fr *frame, args []Value) Value {
+		rv := rvOf(args[0])
+		dst := rtypeOf(args[1]).T
+		if rv == nil {
+			rpanic("Convert", "zero Value")
+		}
+		if rv.N != nil {
+			unsupported("Convert of symbolic node")
+		}
+		if types.Identical(rv.T, dst) {
+			return mkRV(&RV{T: dst, V: copyVal(rv.val())})
+		}
+		if !types.ConvertibleTo(rv.T, dst) {
+			panic(targetPanic{v: "reflect.Value.Convert: value of type " + rv.T.String() + " cannot be converted to type " + dst.String(), what: "reflect"})
+		}
+		sb, ok1 := rv.T.Underlying().(*types.Basic)
+		db, ok2 := dst.Underlying().(*types.Basic)
+		if ok1 && ok2 && sb.Kind() == db.Kind() {
+			return mkRV(&RV{T: dst, V: rv.val()})
+		}
+		if ok1 && ok2 {
+			return mkRV(&RV{T: dst, V: m.conv(dst, rv.T, rv.val())})
+		}
+		unsupported("Convert from %s to %s", rv.T, dst)
+		return nil
+	})
+	reg("(reflect.Value).CanConvert", func(m *Machine, fr *frame, args []Value) Value {
+		rv := rvOf(args[0])
+		if rv == nil || rv.N != nil {
+			unsupported("CanConvert on zero or symbolic Value")
+		}
+		return types.ConvertibleTo(rv.T, rtypeOf(args[1]).T)
+	})
 	reg("(reflect.Value).CanSet", func(m *Machine, fr *frame, args []Value) Value {
 		rv := rvOf(args[0])
 		return rv != nil && rv.Addr != nil && !rv.RO
